@@ -59,6 +59,8 @@ def run(ctx) -> None:
   ctx.rule('R4', 'all PRNG keys derive from the seed by split; no key is consumed twice', 6)
   ctx.rule('R7', 'scores are reported as the score function returned them: untouched on the way into the best-results table, one key for all evaluations', 2)
   ctx.rule('R6', 'eagle pool: a slot\'s features and reward are always replaced together (same index, same result)', 1)
+  ctx.rule('R8', 'eagle: the pool size handed to the strategy is a whole number of batches (finite model); prior features are '
+           'dropped only when they are None', 2)
   ctx.rule('R5', 'the scored prior points reach the best-results table (never worse than the best prior)', 1)
   r1_bounds(ctx)
   r2_versions(ctx)
@@ -67,6 +69,65 @@ def run(ctx) -> None:
   r5_prior(ctx)
   r6_pool_pairing(ctx)
   r7_scores_as_given(ctx)
+  r8_pool_geometry(ctx)
+
+
+# ----------------------------------------------------------------------- R8
+def r8_pool_geometry(ctx) -> None:
+  """The strategy walks the pool batch by batch (`pool_size // batch_size` steps): a pool that is not a whole number of batches has
+  a tail that is never visited - and that tail is where the oldest (prior) flies sit."""
+  from vzstatic import pathcond
+  es = ctx.index.module_of_file(ES)
+  fac = es.classes.get('VectorizedEagleStrategyFactory')
+  call = fac.methods['__call__'] if fac else None
+  if call is None:
+    raise AnalysisError('VectorizedEagleStrategyFactory.__call__ not found')
+  bpar = next((p for p in call.params if 'batch' in p), None)
+  if bpar is None:
+    raise AnalysisError('VectorizedEagleStrategyFactory.__call__: no batch-size parameter')
+  cfg_attrs = sorted({dotted(x) for x in ast.walk(call.node) if isinstance(x, ast.Attribute) and (dotted(x) or '').startswith('self.eagle_config.')})
+  dims = sorted({dotted(x) for x in ast.walk(call.node) if isinstance(x, ast.Attribute) and (dotted(x) or '').endswith(('.continuous', '.categorical'))
+                 and 'n_feature_dimensions' in (dotted(x) or '') and 'padding' not in (dotted(x) or '')})
+  rows = 0
+  bad = None
+
+  def hook(c, env_):
+    if (pathcond.dotted_name(c.func) or '').endswith('VectorizedEagleStrategy'):
+      kw = {k.arg: k.value for k in c.keywords}
+      return {'pool_size': pathcond.neval(kw['pool_size'], env_), 'batch_size': pathcond.neval(kw['batch_size'], env_)}
+    return NotImplemented
+  try:
+    for nf in (1, 2, 7, 20, 36, 60):
+      for batch in (None, 3, 8, 25, 30, 40):
+        for max_pool in (20, 100):
+          for fixed in (0, 50):
+            env = {bpar: batch, '__callhook__': hook}
+            for a in cfg_attrs:
+              env[a] = {'pool_size': fixed, 'max_pool_size': max_pool, 'pool_size_exponent': 1.2}.get(a.rsplit('.', 1)[-1], 1.0)
+            for i_, d in enumerate(dims):
+              env[d] = nf if i_ == 0 else 0
+            rows += 1
+            got = pathcond.run_concrete(call.node, env, tolerant=True)
+            if not isinstance(got, dict):
+              raise pathcond.NoValue('constructor call of the strategy not reached')
+            ps, bs = got['pool_size'], got['batch_size']
+            if fixed == 0 and bs and ps % bs != 0 and bad is None:
+              bad = f'{nf} features, batch size {batch}, max_pool_size {max_pool}: pool_size {ps} is not a multiple of batch_size {bs}'
+  except pathcond.NoValue as e:
+    raise AnalysisError(f'VectorizedEagleStrategyFactory.__call__: cannot be evaluated on the finite model ({e})')
+  ctx.count('pool_geometry_model_rows', rows)
+  ctx.check(bad is None, 'R8', 'eagle pool size is a whole number of batches', call.node, f'{rows} model rows',
+            f'{bad}: the last pool_size % batch_size flies are never suggested or updated, so a prior sitting there is never evaluated again and '
+            'the result can be worse than the best prior', construct='pool-not-multiple-of-batch', func=call.qualname)
+  strat = es.classes.get('VectorizedEagleStrategy')
+  init = strat.methods['init_state']
+  ppar = next((p for p in init.params if 'prior_features' in p), None)
+  rebound = [x for x in ast.walk(init.node) if isinstance(x, ast.Assign) and any(isinstance(t, ast.Name) and t.id == ppar for t in x.targets)]
+  ctx.check(ppar is not None and not rebound, 'R8', 'eagle init_state keeps the prior features it is given', init.node,
+            'the prior-features parameter is never re-bound',
+            f'`{unparse(rebound[0], 60) if rebound else ""}` replaces the prior features under a condition of its own: priors are silently dropped '
+            '(e.g. for purely categorical spaces, whose continuous block is empty) and the result can be worse than the best prior',
+            construct='priors-rebound', func=init.qualname)
 
 
 # ----------------------------------------------------------------------- R1
